@@ -35,7 +35,7 @@ type Frame struct {
 	callCount map[string]int
 }
 
-var autoRangeInv *SExpr
+var autoRangeInv, _ = ParseSpec("-1 <= rangeindex && rangeindex <= 1099511627776")
 
 type retEdge struct {
 	st   *State
@@ -77,10 +77,26 @@ func (ex *Exec) newFrame(fn *ssa.Function, args []*Val, depth int) *Frame {
 	// range loops: the hidden index starts at -1 and only grows (automatic, checked invariant)
 	for _, l := range fr.loops {
 		if strings.HasPrefix(l.header.Comment, "rangeindex.loop") {
-			if autoRangeInv == nil {
-				autoRangeInv, _ = ParseSpec("-1 <= rangeindex && rangeindex <= 1099511627776")
-			}
 			l.spec = &LoopSpec{Invariants: []*Clause{{Kind: "invariant", Label: "auto-rangeindex", Expr: autoRangeInv, Text: "-1 <= rangeindex && rangeindex <= 2^40 (automatic)"}}}
+		}
+	}
+	// counting loops: a local that is only ever incremented by one inside the loop and is tested by the loop
+	// condition (v < e / v <= e) never drops below its value at loop entry (automatic, checked invariant); this
+	// keeps contracts free of clauses like `0 <= i` that would tie them to the name of the counter
+	for _, l := range fr.loops {
+		if strings.HasPrefix(l.header.Comment, "rangeindex.loop") {
+			continue
+		}
+		for _, name := range inductionVars(l) {
+			e, err := ParseSpec("atentry(" + name + ") <= " + name)
+			if err != nil {
+				continue
+			}
+			cl := &Clause{Kind: "invariant", Label: "auto-counter-" + name, Expr: e, Text: "atentry(" + name + ") <= " + name + " (automatic)"}
+			if l.spec == nil {
+				l.spec = &LoopSpec{}
+			}
+			l.spec = &LoopSpec{Invariants: append(append([]*Clause{}, l.spec.Invariants...), cl), Decreases: l.spec.Decreases, Unroll: l.spec.Unroll}
 		}
 	}
 	if fr.contract != nil {
@@ -766,4 +782,64 @@ func returnOrdinal(fn *ssa.Function, ret *ssa.Return) int {
 		}
 	}
 	return 0
+}
+
+
+// inductionVars finds the counters of a loop: named signed-integer locals declared outside the loop whose only
+// store inside the loop is v = v + 1 and which the loop condition compares with < or <=.
+func inductionVars(l *loopInfo) []string {
+	var out []string
+	ifi, ok := l.header.Instrs[len(l.header.Instrs)-1].(*ssa.If)
+	if !ok {
+		return nil
+	}
+	cond, ok := ifi.Cond.(*ssa.BinOp)
+	if !ok || (cond.Op != token.LSS && cond.Op != token.LEQ) {
+		return nil
+	}
+	ld, ok := cond.X.(*ssa.UnOp)
+	if !ok || ld.Op != token.MUL {
+		return nil
+	}
+	a, ok := ld.X.(*ssa.Alloc)
+	if !ok || a.Comment == "" || l.body[a.Block()] {
+		return nil
+	}
+	if b, ok := a.Type().Underlying().(*types.Pointer).Elem().Underlying().(*types.Basic); !ok || b.Info()&types.IsInteger == 0 || b.Info()&types.IsUnsigned != 0 {
+		return nil
+	}
+	stores := 0
+	good := false
+	for b := range l.body {
+		for _, in := range b.Instrs {
+			st, ok := in.(*ssa.Store)
+			if !ok || st.Addr != ssa.Value(a) {
+				continue
+			}
+			stores++
+			if add, ok := st.Val.(*ssa.BinOp); ok && add.Op == token.ADD {
+				if x, ok := add.X.(*ssa.UnOp); ok && x.Op == token.MUL && x.X == ssa.Value(a) {
+					if c, ok := add.Y.(*ssa.Const); ok && c.Value != nil && c.Int64() == 1 {
+						good = true
+					}
+				}
+			}
+		}
+	}
+	// the address must not escape to calls inside the loop (then other writes are possible)
+	for b := range l.body {
+		for _, in := range b.Instrs {
+			if c, ok := in.(ssa.CallInstruction); ok {
+				for _, arg := range c.Common().Args {
+					if arg == ssa.Value(a) {
+						return nil
+					}
+				}
+			}
+		}
+	}
+	if stores == 1 && good {
+		out = append(out, a.Comment)
+	}
+	return out
 }
